@@ -19,7 +19,27 @@ def run(c, idx, base):
     for kind, rel in c['roots']:
         argv += [kind, os.path.join(root, *rel) if rel else root]
     argv += c['flags']
-    if c['mode'] == 'cli':
+    if c['mode'] == 'history':
+        import zope.testrunner
+        defaults = argv + ['--tests-pattern', '^vhist_tests$']        # the caller's own list, used for both runs
+        cwd = os.getcwd()
+        os.chdir(root)
+        try:
+            with redirect_stdout(io.TextIOWrapper(io.BytesIO(), encoding='utf-8', write_through=True)):
+                zope.testrunner.run_internal(defaults, ['prog', '-j2'], script_parts=['-m', 'zope.testrunner'], cwd=root)
+            # the compiled files are back (another tool compiled, a checkout restored them ...)
+            os.chdir(cwd)
+            shutil.rmtree(root)
+            treelib.materialise(root, c['tree'], c.get('order_seed', 0), store=os.path.join(base, 'store%db' % idx))
+            os.chdir(root)
+            before = treelib.snapshot(root)
+            with redirect_stdout(io.TextIOWrapper(io.BytesIO(), encoding='utf-8', write_through=True)):
+                zope.testrunner.run_internal(defaults, ['prog', '--list-tests'], script_parts=['-m', 'zope.testrunner'], cwd=root)
+        finally:
+            os.chdir(cwd)
+            sys.modules.pop('vhist_tests', None)
+        ign = None
+    elif c['mode'] == 'cli':
         p = subprocess.run([sys.executable, '-m', 'zope.testrunner'] + argv + ['--list-tests'],
                            stdout=subprocess.PIPE, stderr=subprocess.STDOUT, cwd=root, timeout=120)
         ign = None
